@@ -60,6 +60,7 @@ type WorldSpec struct {
 	OutStallEvery int    `json:"stdout_stall_every,omitempty"`
 	OutStallFor   string `json:"stdout_stall_for,omitempty"`
 	CloseWakes    bool   `json:"close_wakes_reader"`
+	SockOpenErr   string `json:"sock_open_err,omitempty"`
 	SigintStep    int    `json:"sigint_step,omitempty"`
 	SigintAt      string `json:"sigint_at,omitempty"`
 
@@ -195,6 +196,9 @@ func runCmd(t *testing.T, c simrt.Chooser, w *WorldSpec, trace bool) *CmdResult 
 			wire.WriteErrEvery, wire.WriteErr = w.NicErrEvery, fmt.Errorf("send: no buffer space available")
 		}
 		wire.CloseWakesReader = w.CloseWakes
+		if w.SockOpenErr != "" {
+			wire.OpenErr = fmt.Errorf("%s", w.SockOpenErr)
+		}
 		wire.OnWrite = w.onWrite
 		wire.OnFilter = w.onFilter
 		tcpn = simnet.Install(r)
